@@ -5,3 +5,4 @@ import Props.C06
 import Props.C07
 import Props.C03
 import Props.C05
+import Props.C19
